@@ -436,9 +436,14 @@ def real_unitary(ctx, st, case, alg_name, ham, n, time, n_steps, order, controll
 def expected_unitary(ctx, ref, time, n_steps, order, omit):
     """product of the leaf unitaries with the Model's leaf times (+ the documented final reversal)"""
     sym = order >= 1
-    mo = ctx.driver.one({'op': 'c15.simulate', 'perm': 'reversal' if ref.step_reverses(sym) else 'identity',
-                         'r': ratios_json(order), 'order': order, 'nsteps': n_steps, 'n': ref.n,
-                         'time': rat(Fraction(time)), 'omit': omit})
+    req = {'op': 'c15.simulate', 'perm': 'reversal' if ref.step_reverses(sym) else 'identity',
+           'r': ratios_json(order), 'order': order, 'nsteps': n_steps, 'n': ref.n,
+           'time': rat(Fraction(time)), 'omit': omit}
+    cache = ctx.__dict__.setdefault('_c15_sim_cache', {})
+    key = repr(req)
+    if key not in cache:
+        cache[key] = ctx.driver.one(req)
+    mo = cache[key]
     E = np.eye(2 ** ref.n, dtype=complex)
     cache = {}
     for tj, _ in mo['leaves']:
@@ -988,19 +993,55 @@ def hardening_stream(ctx, lad):
         h = of.DiagonalCoulombHamiltonian(one_body, np.array(two_body, dtype=np.float64), const)
         return circuit_unitary(cirq, of.simulate_trotter(qubits, h, time, n_steps=n_steps, order=order,
                                                          algorithm=algorithm(of, alg)), list(q3))
+    ctlq = cirq.LineQubit(-1)
+
+    def run2(alg, one_body, two_body, const, order, ctl, time=0.5, n_steps=2, qubits=q3):
+        h = of.DiagonalCoulombHamiltonian(one_body, np.array(two_body, dtype=np.float64), const)
+        oq = ([ctlq] if ctl else []) + list(q3)
+        return circuit_unitary(cirq, of.simulate_trotter(qubits, h, time, n_steps=n_steps, order=order,
+                                                         algorithm=algorithm(of, alg),
+                                                         control_qubit=ctlq if ctl else None), oq)
+    # dtypes of DiagonalCoulombHamiltonian.one_body accepted by the unmodified tree (probed when the check was built):
+    # LINEAR_SWAP_NETWORK: complex64, clongdouble, float32, longdouble, float16, Fortran order; SPLIT_OPERATOR: complex64,
+    # float32 (eigh in single precision: 1e-6), Fortran order; two_body must be float64 (constructor).  All generated
+    # values are multiples of 1/4, exactly representable in every one of these types.
+    dtype_variants = {
+        'LSN': [('complex64', lambda M: M.astype(np.complex64), False, 1e-10),
+                ('clongdouble', lambda M: M.astype(np.clongdouble), False, 1e-10),
+                ('complex128 Fortran', lambda M: np.asfortranarray(M.copy()), False, 1e-10),
+                ('float32', lambda M: M.real.astype(np.float32), True, 1e-10),
+                ('longdouble', lambda M: M.real.astype(np.longdouble), True, 1e-10),
+                ('float16', lambda M: M.real.astype(np.float16), True, 1e-10)],
+        'SO': [('complex64', lambda M: M.astype(np.complex64), False, 1e-6),
+               ('complex128 Fortran', lambda M: np.asfortranarray(M.copy()), False, 1e-10),
+               ('float32', lambda M: M.real.astype(np.float32), True, 1e-6)],
+    }
+    for alg in ('LSN', 'SO'):
+        for tn, conv, real_only, tol in dtype_variants[alg]:
+            src = Treal if real_only else base
+            if not real_only and not np.any(np.abs(src.one_body.imag) > 0):
+                src.one_body[0, 1] += 0.5j
+                src.one_body[1, 0] -= 0.5j
+            for order in (0, 1, 2):
+                for ctl in (False, True):
+                    case = {'family': 'T', 'algorithm': alg, 'variant': 'one_body ' + tn, 'order': order, 'controlled': ctl,
+                            'hamiltonian': ham_json(alg, src)}
+                    st.case(case)
+                    st.count('T:one_body-dtype')
+                    ok, want = safe(st, 'T: simulate_trotter (complex128 one_body)', case, lambda: run2(
+                        alg, np.array(src.one_body, dtype=complex), src.two_body, src.constant, order, ctl))
+                    if not ok:
+                        continue
+                    ok, U = safe(st, 'T: simulate_trotter (one_body %s)' % tn, case, lambda: run2(
+                        alg, conv(np.array(src.one_body)), src.two_body, src.constant, order, ctl))
+                    st.float_comparisons += 1
+                    if ok and not maxdiff(U, want) <= tol:
+                        st.violate('T: simulate_trotter with a %s one_body differs from the same values as complex128 (%s)'
+                                   % (tn, alg), case, {'max_abs_difference': maxdiff(U, want)})
     for alg in ('LSN', 'SO'):
         canon = run(alg, base.one_body.copy(), base.two_body, base.constant)
-        canon_real = run(alg, Treal.one_body.copy(), Treal.two_body, Treal.constant)
         canon_t1 = run(alg, base.one_body.copy(), base.two_body, base.constant, time=1.0)
         variants = [
-            ('one_body float64', lambda: run(alg, Treal.one_body.real.astype(np.float64), Treal.two_body, Treal.constant),
-             canon_real, TOL),
-            ('one_body float32', lambda: run(alg, Treal.one_body.real.astype(np.float32), Treal.two_body, Treal.constant),
-             canon_real, 1e-6),
-            ('one_body complex64', lambda: run(alg, base.one_body.astype(np.complex64), base.two_body, base.constant),
-             canon, 1e-6),
-            ('one_body Fortran order', lambda: run(alg, np.asfortranarray(base.one_body.copy()), base.two_body,
-                                                   base.constant), canon, TOL),
             ('two_body Fortran order', lambda: run(alg, base.one_body.copy(), np.asfortranarray(base.two_body),
                                                    base.constant), canon, TOL),
             ('constant int', lambda: run(alg, base.one_body.copy(), base.two_body, 1), canon, TOL),
@@ -1085,6 +1126,10 @@ def ops_stream(ctx):
                 'controlled variants, the orbital-energy gates are compared, the basis changes only counted; distinct = distinct cases')
     rng = rng_for(ctx.seed, 'c15-ops')
     big = ctx.tier == 'thorough' or ctx.drift
+    pending = []     # (request, continuation): the Model is asked once, in one batch, at the end
+
+    def ask(req, cont):
+        pending.append((req, cont))
 
     def cmp_entries(case, real, model, what):
         st.float_comparisons += len(real)
@@ -1103,8 +1148,13 @@ def ops_stream(ctx):
 
     sizes = [2, 3, 4, 5] if not big else [1, 2, 3, 4, 5, 6]
     for n in sizes:
-        for pattern in ('mixed', 'imaginary', 'real'):
+        for pattern, narrow in (('mixed', None), ('imaginary', None), ('real', None), ('mixed', np.complex64),
+                                ('imaginary', np.clongdouble), ('real', np.float32)):
             ham = patterned_dch(of, rng, n, pattern)
+            if narrow is not None:
+                # same (dyadic) values in a narrower / wider dtype; SPLIT_OPERATOR needs a LAPACK dtype
+                ob = ham.one_body.real if narrow is np.float32 else ham.one_body
+                ham = of.DiagonalCoulombHamiltonian(ob.astype(narrow), ham.two_body.copy(), ham.constant)
             time = rng.choice([0.5, -0.75, 1.0])
             qubits = [cirq.LineQubit(2 * i) for i in range(n)]
             pos = {q: i for i, q in enumerate(qubits)}
@@ -1116,7 +1166,8 @@ def ops_stream(ctx):
                                    ('lsn-sym', lsn.SymmetricLinearSwapNetworkTrotterStep, False),
                                    ('lsn-asym-controlled', lsn.ControlledAsymmetricLinearSwapNetworkTrotterStep, True),
                                    ('lsn-sym-controlled', lsn.ControlledSymmetricLinearSwapNetworkTrotterStep, True)):
-                case = {'step': kind, 'n': n, 'pattern': pattern, 'time': time, 'hamiltonian': ham_json('LSN', ham)}
+                case = {'step': kind, 'n': n, 'pattern': pattern, 'time': time, 'hamiltonian': ham_json('LSN', ham),
+                        'one_body_dtype': str(ham.one_body.dtype)}
                 st.case(case)
                 st.count('step:' + kind)
                 ok, ops = safe(st, '%s.trotter_step' % kind, case, lambda: list(cirq.flatten_op_tree(
@@ -1133,9 +1184,11 @@ def ops_stream(ctx):
                 nets = 1 if 'asym' in kind else 2
                 if nswaps != nets * n * (n - 1) // 2:
                     st.violate('number of FSWAPs in the step', case, {'got': nswaps})
-                model = ctx.driver.one(dict(base, op='c15.step', kind=kind))
-                cmp_entries(case, real, model, kind)
+                ask(dict(base, op='c15.step', kind=kind),
+                    lambda model, case=case, real=real, kind=kind: cmp_entries(case, real, model, kind))
             # split operator
+            if narrow is np.clongdouble:
+                continue   # numpy.linalg has no extended-precision eigh: rejected by the unmodified tree
             for kind, cls, ctl in (('so-asym', so.AsymmetricSplitOperatorTrotterStep, False),
                                    ('so-sym', so.SymmetricSplitOperatorTrotterStep, False),
                                    ('so-asym', so.ControlledAsymmetricSplitOperatorTrotterStep, True),
@@ -1154,19 +1207,20 @@ def ops_stream(ctx):
                     st.violate('controlled step: ' + b[:120], case, {})
                 if nswaps != n * (n - 1) // 2:
                     st.violate('number of SWAPs in the step', case, {'got': nswaps})
-                model = ctx.driver.one({'op': 'c15.step', 'kind': kind, 'n': n, 'V': ratm(V),
-                                        'E': [rat(Fraction(float(x))) for x in stp.orbital_energies]})
-                if ctl:
-                    real_c = [r_ for r_ in real if r_[0] == 2 or (r_[0] == 'diag' and r_[3])]
-                    model_c = [m for m in model if m[0] in (2, 5)]
-                    if not all(r_[3] for r_ in real_c):
-                        st.violate('controlled step emits an uncontrolled generator gate', case, {})
-                    const = [r_ for r_ in real if r_[0] == 4]
-                    if len(const) != 1 or abs(const[0][2] - ham.constant) > 1e-12 or real[-1][0] != 4:
-                        st.violate('controlled step: phase of the constant term', case, {'got': [c[2] for c in const]})
-                    cmp_entries(case, real_c, model_c, case['step'])
-                else:
-                    cmp_entries(case, [r_ for r_ in real if r_[0] == 2], [m for m in model if m[0] == 2], case['step'])
+                def cont(model, case=case, real=real, ctl=ctl, ham=ham):
+                    if ctl:
+                        real_c = [r_ for r_ in real if r_[0] == 2 or (r_[0] == 'diag' and r_[3])]
+                        model_c = [m for m in model if m[0] in (2, 5)]
+                        if not all(r_[3] for r_ in real_c):
+                            st.violate('controlled step emits an uncontrolled generator gate', case, {})
+                        const = [r_ for r_ in real if r_[0] == 4]
+                        if len(const) != 1 or abs(const[0][2] - ham.constant) > 1e-12 or real[-1][0] != 4:
+                            st.violate('controlled step: phase of the constant term', case, {'got': [c[2] for c in const]})
+                        cmp_entries(case, real_c, model_c, case['step'])
+                    else:
+                        cmp_entries(case, [r_ for r_ in real if r_[0] == 2], [m for m in model if m[0] == 2], case['step'])
+                ask({'op': 'c15.step', 'kind': kind, 'n': n, 'V': ratm(V),
+                     'E': [rat(Fraction(float(x))) for x in stp.orbital_energies]}, cont)
     # low rank
     for rep in range(budget(ctx.tier, 2, 5)):
         ham = eightfold(of, rng, 2)
@@ -1203,6 +1257,8 @@ def ops_stream(ctx):
                 cmp_entries(case, real_c, model_c, case['step'])
             else:
                 cmp_entries(case, [r_ for r_ in real if r_[0] == 2], [m for m in mo['entries'] if m[0] == 2], case['step'])
+    for (req, cont), ans in zip(pending, ctx.driver.run([r_ for r_, _ in pending])):
+        cont(ans)
     return st
 
 
